@@ -28,6 +28,11 @@ func NewChannelMgr(cfg *Config, defaultTimeShiftBufferDepthS, defaultReceiveNrRa
 
 func (cm *ChannelMgr) AddChannel(ctx context.Context, chName, chDir string) {
 	cm.mu.Lock()
+	if _, ok := cm.channels[chName]; ok {
+		// Created by a concurrent upload between the caller's lookup and this call
+		cm.mu.Unlock()
+		return
+	}
 
 	chCfg := ChannelConfig{
 		Name:                 chName,
